@@ -22,6 +22,15 @@ CHECKS={
    text='Exhaustive enumeration of every store with <=2 tasks (9 state/claim/pruned options x 3 memberships, every acyclic dependency relation, 3 epic-dependency options, optionally pruned epic) and 3 tasks (quick: restricted options; thorough: full), each also reached through 4 history variants (re-assignment between epics, link/unlink noise, reopen, claim churn); on each store the ready/blocked flags, `list --ready` (JSON and human) and `claim` (global and per epic, incl. the no_ready reply) of the real binary are compared with a literal transcription of the manual\'s definition.',
    note='Stores are synthesised event logs in ergo\'s own format (this reaches the crash-only todo+claimed state); a subset is rebuilt through the real CLI and must observe identically. Distinct timestamps only.',
    technique='exhaustive small-scope state enumeration + reference model'),
+
+ 'C07': dict(engine='SEQ+SCHED', level='model_checking', design='3/C07',
+   text='Sequential: explicit-state BFS to fixpoint (canonical graph key) over 3 tasks + 2 epics with `sequence` and `sequence rm` on every ordered pair over {tasks, epics, unknown id, pruned id}, every 3-chain, done/prune/compact; in every state the deps relation read from show --json must be irreflexive, acyclic, same-kind, between live ids, with rdeps its exact mirror; every request is accepted iff a reference model (self / cross-kind / dead endpoint / would-cycle) accepts it and changes exactly the requested edge(s). Concurrent: see coverage.concurrent.',
+   note='State key = canonical labelled graph. Bounded to 3 tasks + 2 epics. Server backend conformance-checked each run.',
+   technique='explicit-state BFS over real commands + reference model; preemption-bounded schedule enumeration for concurrent sequence'),
+ 'C15': dict(engine='SEQ', level='model_checking', design='3/C15',
+   text='Explicit-state BFS to fixpoint over 2 epics (+1 via plan) and <=2 (thorough 3) tasks with new task (root / in epic), set epic, sequence / sequence rm on every task pair and epic pair, done/todo, prune and plan; in every reached state (i) the effective waits-for relation (own deps + children of the epics the task\'s epic depends on) must be acyclic and (ii) if some task is todo and none is doing/blocked/error then something is ready and `claim` must not answer no_ready. The known finding K4 is matched only when the cycle contains an inherited epic-level edge; a cycle of direct edges is a violation.',
+   note='State key = canonical labelled graph; bounded item counts.',
+   technique='explicit-state BFS over real commands + invariant'),
 }
 NA_REASON='check not built yet (work in progress; design in DESIGN.md)'
 m={"version":1,
